@@ -132,9 +132,9 @@ CONFIG["C18"] = dict(
 )
 
 CONFIG["C05"] = dict(
-    modules=["CanVerif.Props.C05", "CanVerif.Props.C05Order", "CanVerif.Props.C05Canon"],
+    modules=["CanVerif.Props.C05", "CanVerif.Props.C05Order", "CanVerif.Props.C05Canon", "CanVerif.Props.C05Inner"],
     level_text="Kernel-checked Lean theorems (Props/C05.lean, Props/C05Order.lean): for definition lists with distinct stripped IDs, distinct signal names per message, distinct node names, at most one VERSION and metadata about pairwise different (kind, object, attribute), every permutation of the definitions compiles to the same database (metadata attachment is a pointwise update under unique keys, updates about different things commute, sorting permutations with distinct keys is unique); the signal comparator is a strict weak order that separates distinct (start, multiplexer value) keys, the sort returns a sorted permutation, and sorted permutations with pairwise distinct keys are unique — so the canonical order does not depend on the input order nor on the sorting algorithm. The denotation (every field as written, one warning per dangling reference, nothing attached) is decided on every run: files of the compilable class are generated together with the database they denote (computed by the generator, independently of parser and compiler), and the original plus its class permutations (message order, signal order, node order, metadata order) are compiled by the real generate.Compile and by the Lean model and compared with that expected database and warning multiset.",
-    level_note="Proof for the model of compile (collect, addMetadata, sortDescriptors): order invariance of the compiled database under any permutation of the definition list in the class (C05_order_invariant); the final sort also erases every inner order -- signals inside a message, value descriptions inside a signal, nodes -- for databases with pairwise distinct sort keys (C05_canonical, Props/C05Canon.lean); not proved: that collect/addMetadata map files differing in the order of signals inside one BO_ or names inside one BU_ to such databases, the multiset of warnings, and 'compile = denote' as a single statement (decided per run against the independent expected database). sort.Slice is trusted to return a sorted permutation.",
+    level_note="Proof for the model of compile (collect, addMetadata, sortDescriptors): order invariance of the compiled database under any permutation of the definition list in the class (C05_order_invariant); reordering inside definitions -- the signals of a BO_, the names of a BU_, the pairs of a VAL_ -- does not change the compiled database either (C05_inner_order_invariant, Props/C05Inner.lean: collect and every metadata step respect 'equal up to inner orders', the final sort erases the rest under pairwise distinct sort keys, C05_canonical), and the two compose (C05_any_order); not proved: the multiset of warnings, and 'compile = denote' as a single statement (decided per run against the independent expected database). sort.Slice is trusted to return a sorted permutation.",
     level="proof",
     trivial=r"^(parse-error|v=- ;; W -)$",
     rule="files of DESIGN.md 4.2 from harness/internal/ops/compile.go, each rendered in original and permuted orders; non-trivial = the file compiles to a non-empty database",
